@@ -155,7 +155,7 @@ theorem delFixP_rebal (S : α) : ∀ (rp : List Dir) (t : Tree α), Rebal S t (d
   | cons dx rq ih =>
     intro t
     have step : ∀ X, Rebal S t X → Rebal S t (delFixP S rq X).1 := fun X h => h.trans (ih X)
-    simp only [delFixP]
+    simp only [delFixP, dfB]
     repeat (first
       | dsimp only
       | apply step
@@ -167,6 +167,58 @@ theorem delFixP_rebal (S : α) : ∀ (rp : List Dir) (t : Tree α), Rebal S t (d
 theorem rbDelFix_rebal (S : α) (rp : List Dir) (t : Tree α) : Rebal S t (rbDelFix S rp t) := by
   unfold rbDelFix
   exact (delFixP_rebal S rp t).trans (Rebal.col _ false (Rebal.refl _))
+
+/-! ### the cases of one iteration of `delFixP` -/
+
+theorem delFixP_nil (S : α) (t : Tree α) : delFixP S [] t = (t, []) := by simp [delFixP]
+
+theorem delFixP_red (S : α) (dx : Dir) (rq : List Dir) (t : Tree α)
+    (h : isRed (subAt (rq.reverse ++ [dx]) t) = true) : delFixP S (dx :: rq) t = (t, dx :: rq) := by
+  rw [delFixP]; simp only [List.reverse_cons, h, if_true]
+
+theorem delFixP_c1 (S : α) (dx : Dir) (rq : List Dir) (t : Tree α)
+    (hx : isRed (subAt (rq.reverse ++ [dx]) t) = false) (hw : isRed (subAt (rq.reverse ++ [dx.flip]) t) = true) :
+    delFixP S (dx :: rq) t = dfB S dx true (dx :: rq) (delFixP S rq)
+      (atPath (rotD S dx) rq.reverse (atPath (setCol true) rq.reverse (atPath (setCol false) (rq.reverse ++ [dx.flip]) t))) := by
+  rw [delFixP]; simp only [List.reverse_cons, hx, hw, Bool.false_eq_true, if_false, if_true]
+
+theorem delFixP_c0 (S : α) (dx : Dir) (rq : List Dir) (t : Tree α)
+    (hx : isRed (subAt (rq.reverse ++ [dx]) t) = false) (hw : isRed (subAt (rq.reverse ++ [dx.flip]) t) = false) :
+    delFixP S (dx :: rq) t = dfB S dx false rq (delFixP S rq) t := by
+  rw [delFixP]; simp only [List.reverse_cons, hx, hw, Bool.false_eq_true, if_false]
+
+theorem dfB_nil (S : α) (dx : Dir) (c1 : Bool) (rq1 : List Dir) (k : Tree α → Tree α × List Dir) (t1 : Tree α)
+    (h : subAt (rq1.reverse ++ [dx.flip]) t1 = .nil) : dfB S dx c1 rq1 k t1 = if c1 then (t1, rq1) else k t1 := by
+  simp only [dfB, h]
+
+theorem dfB_case2 (S : α) (dx : Dir) (c1 : Bool) (rq1 : List Dir) (k : Tree α → Tree α × List Dir) (t1 : Tree α)
+    (wl : Tree α) (wn : Node α) (wm : α) (wc : Bool) (wr : Tree α)
+    (h : subAt (rq1.reverse ++ [dx.flip]) t1 = .node wl wn wm wc wr)
+    (h1 : isRed (match dx with | .L => wl | .R => wr) = false) (h2 : isRed (match dx with | .L => wr | .R => wl) = false) :
+    dfB S dx c1 rq1 k t1 =
+      if c1 then (atPath (setCol true) (rq1.reverse ++ [dx.flip]) t1, rq1)
+      else k (atPath (setCol true) (rq1.reverse ++ [dx.flip]) t1) := by
+  cases dx <;> simp_all [dfB]
+
+theorem dfB_case4 (S : α) (dx : Dir) (c1 : Bool) (rq1 : List Dir) (k : Tree α → Tree α × List Dir) (t1 : Tree α)
+    (wl : Tree α) (wn : Node α) (wm : α) (wc : Bool) (wr : Tree α)
+    (h : subAt (rq1.reverse ++ [dx.flip]) t1 = .node wl wn wm wc wr)
+    (h2 : isRed (match dx with | .L => wr | .R => wl) = true) :
+    dfB S dx c1 rq1 k t1 =
+      (atPath (rotD S dx) rq1.reverse (atPath (setCol false) (rq1.reverse ++ [dx.flip] ++ [dx.flip])
+        (atPath (setCol false) rq1.reverse (atPath (setCol (isRed (subAt rq1.reverse t1))) (rq1.reverse ++ [dx.flip]) t1))), []) := by
+  cases dx <;> simp_all [dfB]
+
+theorem dfB_case3 (S : α) (dx : Dir) (c1 : Bool) (rq1 : List Dir) (k : Tree α → Tree α × List Dir) (t1 : Tree α)
+    (wl : Tree α) (wn : Node α) (wm : α) (wc : Bool) (wr : Tree α)
+    (h : subAt (rq1.reverse ++ [dx.flip]) t1 = .node wl wn wm wc wr)
+    (h1 : isRed (match dx with | .L => wl | .R => wr) = true) (h2 : isRed (match dx with | .L => wr | .R => wl) = false) :
+    dfB S dx c1 rq1 k t1 =
+      (let t3 := atPath (rotD S dx.flip) (rq1.reverse ++ [dx.flip]) (atPath (setCol true) (rq1.reverse ++ [dx.flip])
+          (atPath (setCol false) (rq1.reverse ++ [dx.flip] ++ [dx]) t1))
+       (atPath (rotD S dx) rq1.reverse (atPath (setCol false) (rq1.reverse ++ [dx.flip] ++ [dx.flip])
+        (atPath (setCol false) rq1.reverse (atPath (setCol (isRed (subAt rq1.reverse t3))) (rq1.reverse ++ [dx.flip]) t3))), [])) := by
+  cases dx <;> simp_all [dfB]
 
 /-! ### paths -/
 
